@@ -132,7 +132,9 @@ def z_structured(seed, T=6):
     pr = prices_for(T, seed)
     inner = eao.portfolio.Portfolio([A.Transport(NM('in_tr'), [n1, ni], min_cap=0, max_cap=2, efficiency=0.5),
                                      A.Storage(NM('in_sto'), ni, size=2, cap_in=1, cap_out=1, cost_in=0.1),
-                                     A.Transport(NM('out_tr'), [ni, n2], min_cap=0, max_cap=2, costs_const=0.1)])
+                                     A.Transport(NM('out_tr'), [ni, n2], min_cap=0, max_cap=2, costs_const=0.1),
+                                     # a priced contract of the sub-portfolio at one of its EXTERNAL nodes
+                                     A.SimpleContract(NM('in_src'), n1, price='p3', min_cap=-1, max_cap=1, extra_costs=0.05)])
     sa = eao.portfolio.StructuredAsset(name=NM('hydro'), nodes=[n1, n2], portfolio=inner)
     a = [sa, A.SimpleContract(NM('m1'), n1, price='p1', min_cap=-3, max_cap=3), A.SimpleContract(NM('m2'), n2, price='p2', min_cap=-3, max_cap=3)]
     return 'structured', eao.portfolio.Portfolio(a), pr, tg
